@@ -29,8 +29,8 @@ ASSUMPTIONS = [
 PLAN = {"quick": dict(programs=4000, values=3, depth=3), "thorough": dict(programs=30000, values=6, depth=5)}
 FLOORS = {"quick": {"unmarshal_nodes_compared": 70000, "marshal_nodes_compared": 70000, "exception_parity_checked": 100000, "shape_sets_compared": 30000,
                     "same_name_two_modules": 800, "builds_watched_for_warnings": 6000, "own_class_instance_sources": 20000, "reordered_sources": 15000, "revised_module_roots": 250},
-          "thorough": {"unmarshal_nodes_compared": 1500000, "marshal_nodes_compared": 1500000, "exception_parity_checked": 600000,
-                       "shape_sets_compared": 150000, "same_name_two_modules": 8000, "builds_watched_for_warnings": 55000, "own_class_instance_sources": 100000, "reordered_sources": 100000, "revised_module_roots": 2000}}
+          "thorough": {"unmarshal_nodes_compared": 1200000, "marshal_nodes_compared": 1200000, "exception_parity_checked": 600000,
+                       "shape_sets_compared": 150000, "same_name_two_modules": 7000, "builds_watched_for_warnings": 50000, "own_class_instance_sources": 100000, "reordered_sources": 100000, "revised_module_roots": 2000}}
 COMPOSITE = ("coll", "fixed", "mapping", "struct")
 
 
